@@ -287,7 +287,7 @@ func evalA(p polA, ctx0 string, r runA) (out []finding) {
 	k := errKind(r.Err)
 	// the very error of the last invocation (whatever its kind: a context error produced by the operation itself
 	// and handed back unchanged is "the last error") ...
-	if r.LastErr != nil && errors.Is(r.Err, r.LastErr) {
+	if r.LastErr != nil && errors.Is(r.Err, r.LastErr) && !(p.Enabled && k == "raw-context-error") {
 		return
 	}
 	if k == "raw-context-error" {
